@@ -15,6 +15,8 @@
 //!  * `co_yield_with(v)` counts a yield and hands `v` to the harness hook (`ghost::YIELD_HOOK`);
 //!  * `co_get_yield` / `co_set_para` read and write the current context's para slot;
 //!  * `get_local_data()` returns the current context's local data (null = thread context).
+//!  * a generator dropped (or re-initialised) before its closure ran leaks the closure instead of dropping it;
+//!    a pending panic payload, para or scripted yield value is leaked as well.
 //! No stack switch, no unwinding, no stack reuse is modelled.
 #![allow(clippy::all)]
 #![allow(static_mut_refs)]
@@ -68,9 +70,23 @@ pub mod ghost {
     }
 }
 
+unsafe fn call_thunk<F: FnOnce() -> T, T>(p: *mut u8) -> T {
+    let f: Box<F> = Box::from_raw(p as *mut F);
+    (*f)()
+}
+
+unsafe fn drop_thunk<F>(p: *mut u8) {
+    drop(Box::from_raw(p as *mut F));
+}
+
 struct Imp<'a, A, T> {
     id: usize,
-    f: Option<Box<dyn FnOnce() -> T + Send + 'a>>,
+    // the not-yet-run closure, type-erased WITHOUT a trait object: a `Box<dyn FnOnce>` would make every
+    // drop and call a virtual call, for which CBMC considers every closure in the program as a target
+    f_ptr: *mut u8,
+    f_call: Option<unsafe fn(*mut u8) -> T>,
+    f_drop: Option<unsafe fn(*mut u8)>,
+    _life: PhantomData<&'a ()>,
     scripted: Option<T>,
     scripted_panic: bool,
     para: Option<A>,
@@ -79,6 +95,36 @@ struct Imp<'a, A, T> {
     size: usize,
     used: usize,
     resumes: usize,
+}
+
+impl<'a, A, T> Imp<'a, A, T> {
+    fn set_code<F: FnOnce() -> T + Send + 'a>(&mut self, f: F) {
+        self.f_ptr = Box::into_raw(Box::new(f)) as *mut u8;
+        self.f_call = Some(call_thunk::<F, T>);
+        self.f_drop = Some(drop_thunk::<F>);
+    }
+    /// A closure that never ran is LEAKED, not dropped (the real crate unwinds the not-yet-finished
+    /// generator instead): calling the erased drop function here is a function-pointer call for which CBMC
+    /// considers every closure type in the program, and through their captures generators again.
+    fn clear_code(&mut self) {
+        self.f_drop = None;
+        self.f_call = None;
+        self.f_ptr = ptr::null_mut();
+    }
+    fn has_code(&self) -> bool {
+        self.f_call.is_some()
+    }
+    fn run_code(&mut self) -> Option<T> {
+        match self.f_call.take() {
+            Some(c) => {
+                self.f_drop = None;
+                let p = self.f_ptr;
+                self.f_ptr = ptr::null_mut();
+                Some(unsafe { c(p) })
+            }
+            None => None,
+        }
+    }
 }
 
 pub struct GeneratorObj<'a, A, T, const LOCAL: bool> {
@@ -94,7 +140,8 @@ unsafe impl<A: Send, T: Send> Send for Generator<'static, A, T> {}
 impl<'a, A, T> Generator<'a, A, T> {
     pub fn init_code<F: FnOnce() -> T + Send + 'a>(&mut self, f: F) {
         let imp = unsafe { &mut *self.imp.as_ptr() };
-        imp.f = Some(Box::new(f));
+        imp.clear_code();
+        imp.set_code(f);
         imp.scripted = None;
         imp.scripted_panic = false;
         imp.panic = None;
@@ -102,7 +149,7 @@ impl<'a, A, T> Generator<'a, A, T> {
 }
 
 impl<'a, A, T, const LOCAL: bool> GeneratorObj<'a, A, T, LOCAL> {
-    fn new_imp(size: usize, f: Option<Box<dyn FnOnce() -> T + Send + 'a>>) -> Self {
+    fn new_imp(size: usize) -> Self {
         let id = unsafe {
             let id = ghost::NEXT_ID;
             ghost::NEXT_ID += 1;
@@ -110,7 +157,10 @@ impl<'a, A, T, const LOCAL: bool> GeneratorObj<'a, A, T, LOCAL> {
         };
         let imp = Box::new(Imp {
             id,
-            f,
+            f_ptr: ptr::null_mut(),
+            f_call: None,
+            f_drop: None,
+            _life: PhantomData,
             scripted: None,
             scripted_panic: false,
             para: None,
@@ -176,10 +226,10 @@ impl<'a, A, T, const LOCAL: bool> GeneratorObj<'a, A, T, LOCAL> {
             Some(v)
         } else if imp.scripted_panic {
             imp.scripted_panic = false;
-            imp.f = None;
+            imp.clear_code();
             None
         } else {
-            imp.f.take().map(|f| f())
+            imp.run_code()
         };
         unsafe {
             ghost::CUR_LOCAL = old_local;
@@ -189,7 +239,7 @@ impl<'a, A, T, const LOCAL: bool> GeneratorObj<'a, A, T, LOCAL> {
     }
 
     pub fn is_done(&self) -> bool {
-        unsafe { (*self.imp.as_ptr()).f.is_none() }
+        unsafe { !(*self.imp.as_ptr()).has_code() }
     }
 
     pub fn stack_usage(&self) -> (usize, usize) {
@@ -227,7 +277,7 @@ impl<'a, A, T, const LOCAL: bool> GeneratorObj<'a, A, T, LOCAL> {
         }
     }
     pub fn shim_has_code(&self) -> bool {
-        unsafe { (*self.imp.as_ptr()).f.is_some() }
+        unsafe { (*self.imp.as_ptr()).has_code() }
     }
 }
 
@@ -235,7 +285,13 @@ impl<A, T, const LOCAL: bool> Drop for GeneratorObj<'_, A, T, LOCAL> {
     fn drop(&mut self) {
         unsafe {
             ghost::GEN_DROPS += 1;
-            drop(Box::from_raw(self.imp.as_ptr()));
+            let imp = &mut *self.imp.as_ptr();
+            imp.clear_code();
+            // the box is freed WITHOUT running the field drop glue: a pending panic payload (`Box<dyn Any>`), a
+            // pending para (`io::Error` holds a `Box<dyn Error>`) and a scripted yield value are leaked —
+            // every trait-object drop is a virtual call with thousands of candidate targets for CBMC
+            let b: Box<std::mem::ManuallyDrop<Imp<'_, A, T>>> = Box::from_raw(self.imp.as_ptr() as *mut _);
+            drop(b);
         }
     }
 }
@@ -262,13 +318,15 @@ impl<A: Any> Gn<A> {
     where
         F: FnOnce() -> T + Send + 'a,
     {
-        GeneratorObj::new_imp(size, Some(Box::new(f)))
+        let g = GeneratorObj::new_imp(size);
+        unsafe { (*g.imp.as_ptr()).set_code(f) };
+        g
     }
 }
 
 /// Make an empty generator (no closure); harness side only.
 pub fn shim_new_empty<'a, A, T>(size: usize) -> Generator<'a, A, T> {
-    GeneratorObj::new_imp(size, None)
+    GeneratorObj::new_imp(size)
 }
 
 pub fn is_generator() -> bool {
